@@ -48,6 +48,16 @@ def generate(G):
              "c15::compose(s, %s, %d, %d, %d, c15::Act::%s)" % (G.rs(inp_shape), i, h, o, act), unwind=10, tier=tier, heavy=True,
              skeleton={"input": inp_shape, "sizes": [i, h, o], "activation1": act, "formula": "layer2(layer1(x)) in order (explicit composition, not through Model)"},
              domains="parameters, input D2")
+    # through the Model struct itself: Model::forward and Model::backward encode fine (125 s for both);
+    # it is Model::update that does not (DESIGN.md closing note)
+    G.ob("c15_model_forward_2_2_2_1", "C15", "model_forward", "c15::model_forward(s, &[2], 2, 2, 1)", unwind=10, tier="experimental",
+         heavy=True, skeleton={"stack": "Model[Dense(2->2), Dense(2->1)]", "input": [2], "what": "Model::forward == composition"})
+    G.ob("c15_model_backward_1x2_2to1", "C15", "model_backward", "c15::model_backward(s, &[1, 2], 2, 1)", unwind=10, tier="experimental",
+         heavy=True, skeleton={"stack": "Model[Dense(2->1)]", "input": [1, 2], "what": "Model::backward returns sum(cost array); parameter gradients"})
+    G.ob("c15_model_forward_1x1_1_1_1", "C15", "model_forward", "c15::model_forward(s, &[1, 1], 1, 1, 1)", unwind=8, tier="quick",
+         heavy=False, skeleton={"stack": "Model[Dense(1->1), Dense(1->1)]", "input": [1, 1], "what": "Model::forward == composition"})
+    G.ob("c15_model_backward_1x1_1to1", "C15", "model_backward", "c15::model_backward(s, &[1, 1], 1, 1)", unwind=8, tier="quick",
+         heavy=False, skeleton={"stack": "Model[Dense(1->1)]", "input": [1, 1], "what": "Model::backward returns sum(cost array); parameter gradients"})
     for d, tier in (([2], "quick"), ([2, 2], "quick"), ([1, 4], "thorough"), ([4], "thorough")):
         G.ob("c15_mse_%s" % G.sname(d), "C15", "mse", "c15::mse(s, %s)" % G.rs(d), unwind=G.numel(d) + 3, tier=tier, stubs=("powf",),
              skeleton={"dims": d, "formula": "(target - output)^2 / element count; loss = sum"}, domains="output, target D4 (element counts are powers of two: exact)")
